@@ -1,7 +1,9 @@
 import RbV.Ref.SA
 import RbV.Ref.SAComplete
+import RbV.Ref.SAUnique
 import RbV.Model.Kasai
 import RbV.Model.Sus
+import RbV.Model.Transform
 /-!
 # C03 — suffix array = sorted permutation of all suffixes; LCP; shortest unique substrings
 
@@ -57,6 +59,25 @@ theorem checkSorted_iff_sorted (ks sa : List Nat) :
   checkSorted_iff ks sa
 
 example : checkSorted [3, 2, 2, 4, 4, 1, 2, 1, 0] [8, 7, 5, 6, 1, 2, 0, 4, 3] = true := by decide
+
+/-- **Mirror model of `transform_text` ties SA-IS to the property**: if an array is the sorted suffix permutation
+of the sentinel-aware rank transform of a text (what `Sais::construct` is asked to produce), then it satisfies the
+property for the byte text, under the sentinel order "a later sentinel occurrence is smaller". -/
+theorem transform_sorted_isSA (t sa : List Nat) (hne : t ≠ [])
+    (hmin : ∀ p, p < t.length → sentinelOf t ≤ t.getD p 0)
+    (hp : sa.Perm (List.range t.length))
+    (hs : sa.Pairwise (fun i j => lexLt ((Transform.transformText t).drop i) ((Transform.transformText t).drop j))) :
+    IsSA t sa :=
+  Transform.transform_sorted_isSA t sa hne hmin ⟨by rw [Transform.length_transformText]; exact hp, hs⟩
+
+example : Transform.transformText [65, 36, 67, 36, 65, 36] = [3, 2, 4, 1, 3, 0] := by decide
+
+/-- **The sorted suffix permutation is unique**: for a fixed key text (an integer text, or a byte text with a
+fixed sentinel order) two accepted arrays are equal — the property determines the result of `suffix_array_int`
+completely, and that of `suffix_array` up to the order chosen for the sentinel occurrences. -/
+theorem checkSorted_unique (ks sa sa' : List Nat) (h : checkSorted ks sa = true) (h' : checkSorted ks sa' = true) :
+    sa = sa' :=
+  suffixSorted_unique ks sa sa' ((checkSorted_iff ks sa).mp h) ((checkSorted_iff ks sa').mp h')
 
 /-- the order used is a strict total order on lists (so "sorted" determines the array when suffixes differ) -/
 theorem lexLt_strict_total (x y z : List Nat) :
